@@ -230,7 +230,10 @@ def gen_can_desc(rng, mode):
                 alias = f"as {name}x{k}" if (k or rng.random() < 0.3) else ""  # also structs bound under an alias only
                 bus = "" if rng.random() < 0.5 else f'    bus: "{rng.choice(BUS_NAMES)}",\n'
                 dev = "" if rng.random() < 0.6 else f'    device: "{rng.choice(["ecu", "bms"])}",\n'
-                extra.append(f"impl can for {name} {alias} {{\n    id: {len(extra) + 1},\n{bus}{dev}" + "\n".join(blocks) + "\n}")
+                # now and then a binding of another protocol that looks like a CAN binding (other case, other name, with id and
+                # bus): protocol names are compared exactly, so none of these is a CAN message for any back end
+                proto = "can" if rng.random() < 0.93 else rng.choice(["CAN", "Can", "cAn", "can2", "lin", "canfd"])
+                extra.append(f"impl {proto} for {name} {alias} {{\n    id: {len(extra) + 1},\n{bus}{dev}" + "\n".join(blocks) + "\n}")
     d.extra = "\n".join(extra) + "\n"
     return d
 
@@ -567,6 +570,27 @@ def check_describe_twins(rep, rng, tier):
                            "what": "the described encoding of a struct changes when its field declarations are permuted (ids fixed)"})
 
 
+C_SIGNAL = re.compile(r"can_(?:de|en)code_signal_(?:as|from)_\w+\(\(\w+\),\s*(\d+),\s*(\d+),")
+C_DLC = re.compile(r"\.dlc\s*=\s*(\d+)")
+
+
+def c_source_geometry(files, rep):
+    """second sentence of C14 on the generated C: every signal accessor lies inside the 64 data bits, every DLC is <= 8"""
+    for path, text in files.items():
+        if not path.endswith("_can.c"):
+            continue
+        sigs = C_SIGNAL.findall(text)
+        dlcs = C_DLC.findall(text)
+        rep.hist("c_source_scanned", "signals" if sigs else "no signal accessor recognised")
+        for a, b in sigs:
+            if int(a) + int(b) > 64:
+                return f"{path}: a signal accessor covers bits {a}..{int(a) + int(b) - 1}, beyond the 64 data bits of a frame"
+        for x in dlcs:
+            if int(x) > 8:
+                return f"{path}: a message is emitted with dlc = {x}"
+    return None
+
+
 def check_c_command(rep, rng, tier, descs, cases, mres):
     """C14, C side: `GeneratorManager.generate('can_c', ...)` on bindings around the limit"""
     ks = [k for k in range(len(descs)) if k in mres and "driver_err" not in mres[k]]
@@ -594,6 +618,13 @@ def check_c_command(rep, rng, tier, descs, cases, mres):
                 rep.violation(dict(base, kind="c-emitted", after=sorted(o["after"]),
                                    what="the C generation command failed but changed the output directory"))
         elif "err" not in m:
+            if o["result"].get("ok") is True:
+                # geometry of whatever was written: no signal beyond the eight data bytes, no DLC above 8
+                bad = c_source_geometry(o["after"], rep)
+                if bad:
+                    rep.cov["disagreements_checked"] += 1
+                    rep.violation(dict(base, kind="c-signal-geometry", what=bad,
+                                       files={p: t[-1500:] for p, t in o["after"].items() if p.endswith("_can.c")}))
             if o["result"].get("ok") is False:
                 rep.cov["disagreements_checked"] += 1
                 rep.violation(dict(base, kind="c-unexpected-failure",
